@@ -200,7 +200,8 @@ def reader_records(rng, n, repeats=False):
     from shangrla.raire.raire_utils import load_contests_from_raire
     recs = []
     for k in range(n):
-        ncon = rng.choice([1, 2])
+        # (a file may declare ten contests or more: the count is a number, not a digit)
+        ncon = rng.choice([1, 2]) if k % 12 else rng.choice([10, 11, 12])
         cons = {}
         # identifiers of contests, ballots and candidates are small numbers in real files and may coincide
         small_ids = k % 3 == 0
@@ -366,6 +367,10 @@ def run(pid, tier):
         rep.clause_count(r["kind"], not [c for c in rejects.get(r["tid"], []) if belongs(pid, c)])
     for r in recs[:1] + recs[len(recs) // 2: len(recs) // 2 + 1] + recs[-1:]:
         rep.sample(r)
+    if pid == "C15":
+        # beyond the listed properties: the search's own steps (spec/RaireSearch*.tla); observations only
+        from . import check_rairesearch
+        check_rairesearch.steps_part(rep, tier, rng)
     rep.assumptions += ["3 candidates exhaustively (every multiset of <=4/5 partial rankings, every reported winner, both "
                         "difficulty functions, order hints); 4-5 candidates by seeded random profiles",
                         "float difficulties compared with exact ones within 1e-9; float ties only permute equally difficult assertions",
